@@ -52,6 +52,7 @@ class FnContract:
         self.ret = "r"
         self.requires, self.ensures = [], []
         self.findings = []
+        self.ascribe = []
         self.fn_decreases = None
         self.loops = {}      # n -> {"invariants": [Clause], "decreases": str, "iter": str}
         self.closures = {}   # n -> header text
@@ -192,6 +193,9 @@ def parse_spec(path):
             fn.loops[loop]["invariants"].append(Clause("invariant", labels, t, where))
         elif name == "decreases":
             fn.loops[loop]["decreases"] = text
+        elif name == "ascribe":
+            # type ascription for a local introduced by a normalisation rule (`let mut __f = None;`): annotation only
+            fn.ascribe.append(arg.strip())
         elif name == "closure":
             fn.closures[int(arg.strip())] = btext.strip()
         elif name in ("proof", "ghost"):
